@@ -19,7 +19,12 @@ import (
 	"google.golang.org/protobuf/reflect/protoregistry"
 	"google.golang.org/protobuf/types/dynamicpb"
 
+	_ "google.golang.org/protobuf/cmd/protoc-gen-go/testdata/proto2"
+	_ "google.golang.org/protobuf/cmd/protoc-gen-go/testdata/proto3"
+	_ "google.golang.org/protobuf/cmd/protoc-gen-go/testdata/protoeditions"
+	"google.golang.org/protobuf/internal/impl"
 	_ "google.golang.org/protobuf/internal/testprotos/lazy"
+	"google.golang.org/protobuf/runtime/protoiface"
 	_ "google.golang.org/protobuf/internal/testprotos/lazy/lazy_opaque"
 	_ "google.golang.org/protobuf/internal/testprotos/required"
 	_ "google.golang.org/protobuf/internal/testprotos/required/required_opaque"
@@ -77,6 +82,10 @@ var rootTypes = []string{
 	"lazy_tree.Node",
 	"opaque.lazy_tree.Node",
 	"lazy_normalized_wire_test.FTop",
+	// oneofs whose members share a Go type, every scalar kind in optional/required/repeated/map position
+	"goproto.protoc.proto2.FieldTestMessage",
+	"goproto.protoc.proto3.FieldTestMessage",
+	"goproto.protoc.protoeditions.FieldTestMessage",
 }
 
 type Root struct {
@@ -239,7 +248,7 @@ func roundTrip(c *C, r *Root, m protoreflect.Message, dyn bool) {
 // ---------- C04: size ----------
 
 func runSize(c *C) {
-	c.R.Rule = "random messages as in C03; Size vs len(Marshal) under {default, Deterministic} options and MarshalAppend with random prefixes/capacities; bodies at varint-length boundaries (127/128/16383/16384 bytes). Non-trivial = non-empty encoding; distinct by bytes."
+	c.R.Rule = "random messages as in C03; Size vs len(Marshal) under {default, Deterministic} options and MarshalAppend with random prefixes/capacities; bodies at varint-length boundaries (127/128/16383/16384 bytes); plus mutate/Size/Marshal histories on nested messages (size changes of exactly one byte after a previous Size). Non-trivial = non-empty encoding; distinct by bytes."
 	rs := roots(c)
 	per := c.N(40, 1500)
 	for _, r := range rs {
@@ -252,6 +261,10 @@ func runSize(c *C) {
 				}
 				sizeCase(c, r, m, dyn)
 			}
+		}
+		// Size/Marshal after in-place mutations of already-sized nested messages (cached sizes must not go stale)
+		for i := 0; i < per/4+1 && !c.Failed(); i++ {
+			cacheHistory(c, r)
 		}
 	}
 }
@@ -535,6 +548,26 @@ func decodeCase(c *C, r *Root, b []byte, limit int, discard bool, kinds string) 
 			}()
 		}
 	}
+	// the fast-path validator used by lazy decoding must agree with Unmarshal
+	func() {
+		defer c.Recover("impl.Validate", in, "")
+		_, st := impl.Validate(r.MT, protoiface.UnmarshalInput{Buf: b, Depth: limit})
+		out, _ := impl.Validate(r.MT, protoiface.UnmarshalInput{Buf: b, Depth: limit})
+		ok := len(verdicts) > 0 && strings.HasPrefix(verdicts[0], "ok")
+		switch st {
+		case impl.ValidationValid:
+			c.Check(ok, "validator says Valid but Unmarshal fails", in, "")
+			if ok && out.Flags&protoiface.UnmarshalInitialized != 0 {
+				m := r.MT.New()
+				if (proto.UnmarshalOptions{AllowPartial: true, NoLazyDecoding: true, RecursionLimit: limit}).Unmarshal(b, m.Interface()) == nil {
+					c.Check(proto.CheckInitialized(m.Interface()) == nil, "validator reports a partial message as initialized", in, "")
+				}
+			}
+		case impl.ValidationInvalid:
+			c.Check(!ok, "validator says Invalid but Unmarshal succeeds", in, "")
+		}
+		c.Hist(fmt.Sprintf("validate:%d", st))
+	}()
 	// all implementation voices agree (C08 aspect) …
 	for _, v := range verdicts[1:] {
 		if !(v == verdicts[0] || (strings.HasPrefix(v, "err") && strings.HasPrefix(verdicts[0], "err"))) {
